@@ -5,6 +5,7 @@ import ParryModel.C08.TrackedLemmas
 import ParryModel.C08.LinkLemmas
 import ParryModel.C08.TermLemmas
 import ParryModel.C08.Theorems2
+import ParryModel.C08.Theorems3
 /-!
 # C08 property theorems: the QBVH stays valid under any history
 
